@@ -275,7 +275,7 @@ def nextStream : Nat → List Nat → Nat → Except Err (Option (Check × List 
   | 0, _, _ => .error .invalidData
   | fuel+1, inp, zeros =>
     match inp with
-    | [] => pure none
+    | [] => if zeros % 4 ≠ 0 then throw .invalidData else pure none
     | b :: rest =>
       if b = 0 then nextStream fuel rest (zeros + 1)
       else if b ≠ Consts.XZ_MAGIC.getD 0 0 then throw .invalidData
